@@ -84,6 +84,13 @@ func (u *C11CtxU) UnmarshalJSON(ctx context.Context, b []byte) error {
 	return nil
 }
 
+type C11QI struct {
+	A int
+	B string
+	I interface{}
+	M *C11CtxM
+}
+
 type C11EmbIn struct {
 	X, Y int
 	Q    string
@@ -175,7 +182,8 @@ func c11NewHandles(decDocs []string, decFrom int) *c11Handles {
 	q7, _ := json.BuildFieldQuery("N", json.BuildSubFieldQuery("In").Fields("Q"))
 	q8, _ := json.BuildFieldQuery("A", "In")
 	q9, _ := json.BuildFieldQuery(json.BuildSubFieldQuery("In").Fields("X", "Y"))
-	h.queries = []*json.FieldQuery{q1, q2, q3, q4, q5, q6, q7, q8, q9}
+	q10, _ := json.BuildFieldQuery("A", json.BuildSubFieldQuery("I").Fields("P"), json.BuildSubFieldQuery("M").Fields("ZA", "ZB"))
+	h.queries = []*json.FieldQuery{q1, q2, q3, q4, q5, q6, q7, q8, q9, q10}
 	h.enc = json.NewEncoder(h.encBuf)
 	h.dec = json.NewDecoder(&chunkReader{data: []byte(strings.Join(decDocs[decFrom:], " ")), size: 7})
 	return h
@@ -458,9 +466,16 @@ func c11Pool(rng *rand.Rand) (calls []c11Call, decDocs []string) {
 	}
 	// directed: different field queries, one after the other, on one type with an embedded struct (what
 	// one query selects must not shape the program another query gets)
-	for qi := 3; qi < 9; qi++ {
+	for qi := 3; qi < 10; qi++ {
 		qi := qi
 		for vi, v := range []interface{}{
+			// an interface-typed member and a context-aware marshaler under sub-queries (what they get must
+			// be the same the second time the query is used)
+			C11QI{A: 1, B: "b", I: struct {
+				P int
+				Q string
+				R bool
+			}{2, "q", true}, M: &C11CtxM{N: 3}},
 			C11Emb{C11EmbIn: C11EmbIn{X: 1, Y: 2, Q: "q"}, A: 3, N: 4, In: C11EmbIn{X: 5, Y: 6, Q: "r"}},
 			&C11Emb{C11EmbIn: C11EmbIn{X: 7}, A: 8},
 			[]C11Emb{{A: 1}, {C11EmbIn: C11EmbIn{Y: 9}, N: 2}},
